@@ -379,7 +379,7 @@ func (x *Exec) applyContract(st *State, fn *ssa.Function, spec *contract.FuncSpe
 				}
 			}
 		}
-		if any && exact {
+		if any && exact && !x.spawning {
 			continue
 		}
 		if !any && x.Mode == ModeUnwind {
@@ -392,6 +392,11 @@ func (x *Exec) applyContract(st *State, fn *ssa.Function, spec *contract.FuncSpe
 	}
 	env.st = st
 	env.old = old
+	if x.spawning {
+		// `go f(...)`: f runs concurrently; its precondition and frame were checked above, what it
+		// may write has been forgotten, and neither its `sets` nor its postcondition hold yet
+		return nil, true
+	}
 	for _, s := range spec.Sets {
 		loc := env.evalLoc(s.E, true)
 		v := env.eval(s.E2)
